@@ -170,3 +170,30 @@ W7 = REG.add(Contract(
     verify_with=w7_verify, may_raise=["AttributeError", "Any"], free_default=True,
     properties=("C01", "C11", "C12")))
 W7.note = "wrapped output goes through textwrap (T-wrap), outside the contract; data[i] is an opaque numpy index"
+
+
+# ---------------------------------------------------------------- the per-column format closure of writer.write
+def verify_gcf(E, c):
+    outer = E.funcs["writer.write"]
+    inner = [n for n in _ast.walk(outer) if isinstance(n, _ast.FunctionDef) and n.name == "get_column_fmt"]
+    if len(inner) != 1:
+        raise OutOfSubset("closure get_column_fmt not found in writer.write")
+    fn = inner[0]
+    fn._pyvc_top = True
+    return E.verify(c, fnode=fn, module="writer")
+
+
+def gcf_post(c):
+    cf, j = c.a["column_fmt"].t, obj_of_int(c.a["j"].t)
+    has = z3.Function("py_contains", PyObj, PyObj, B)(cf, j)
+    o = z3.Const("any_obj", PyObj)
+    return [("the-column's-own-format-if-the-caller-gave-one-else-the-general-fmt",
+             c.eng.to_obj(c.res) == z3.If(has, getitem(cf, j), obj_of_str(c.a["fmt"].t))),
+            ("the-caller's-column_fmt-dict-is-only-read (a second write with another fmt is not affected by the first)",
+             z3.ForAll([o], z3.Not(z3.Select(c.g("$mutated"), o))))]
+
+
+GCF = REG.add(Contract(
+    "writer.write#get_column_fmt", params={"j": INT, "column_fmt": OBJ, "fmt": STR},
+    ensures=gcf_post, ghost_init=LI.get_ghost, verify_with=verify_gcf, modifies={}, noraise=True,
+    properties=("C01", "C12", "C16")))
